@@ -20,16 +20,27 @@ if len(sys.argv) > 2:
     from clustersim.episode import Runner
     from clustersim.monitors import InternalErrorMonitor, StateGraphMonitor, ConvergenceMonitor, live_view
     mons = [InternalErrorMonitor(), StateGraphMonitor(), ConvergenceMonitor(c)]
+    suffix = {'boot_dead': True}
+    check = None
+    if len(sys.argv) > 3:
+        import importlib
+        check = importlib.import_module('checks.' + sys.argv[3].lower()).CHECK
+        mons = check.make_monitors(ep)
+        suffix = check.suffix_kwargs
     r = Runner(ep, mons)
     r.run_prefix()
-    r.run_suffix(boot_dead=True)
+    r.run_suffix(**suffix)
     kinds = set(sys.argv[2].split(','))
     for rec in r.world.log:
         if rec[1] in kinds or 'all' in kinds:
             print(rec)
-    for m in mons:
-        for f in m.finish(r.world):
+    if check is not None:
+        for f in check.evaluate(r, mons):
             print('FINDING', f)
+    else:
+        for m in mons:
+            for f in m.finish(r.world):
+                print('FINDING', f)
     for inst in r.world.instances:
         if inst.alive:
             print(inst.nick, live_view(inst))
